@@ -266,17 +266,19 @@ pub fn exec_history(f: &Family, hist: &[Op]) -> Result<Dictionary, (usize, RealS
 
 pub fn family_d(_tier: Tier) -> Vec<Family> {
     let (cats, ranges) = lex_char_def();
+    // feature strings with text-level corners: a quoted cell with a line break, trailing blank,
+    // TAB, empty feature, leading '#'
     let rows = vec![
         row("a", 1, 1, 30, "a#1"),
-        row("ab", 2, 3, 45, "ab"),
-        row("abc", 3, 2, 50, "abc"),
-        row("c", 2, 2, 20, "c"),
+        row("ab", 2, 3, 45, "\"l1\nl2\",ab"),
+        row("abc", 3, 2, 50, "abc "),
+        row("c", 2, 2, 20, ""),
         row("a", 3, 1, 31, "a#2,x"),
-        row("b", 1, 3, 28, "b"),
+        row("b", 1, 3, 28, "#b\tx"),
     ];
     let users = vec![
-        vec![row("ab", 2, 1, 25, "user-ab"), row("c", 1, 3, -5, "user-c")],
-        vec![row("a", 3, 2, 5, "user-a"), row("bc", 2, 2, 10, "user-bc"), row("a", 1, 1, 6, "user-a#2")],
+        vec![row("ab", 2, 1, 25, "\"u\r\nv\",user-ab"), row("c", 1, 3, -5, "user c\u{3000}")],
+        vec![row("a", 3, 2, 5, "user-a"), row("bc", 2, 2, 10, ""), row("a", 1, 1, 6, "user-a#2")],
     ];
     let maps = vec![
         (vec![2, 3, 1], vec![3, 1, 2]), // 3-cycles (not involutions)
@@ -315,6 +317,16 @@ pub fn family_d(_tier: Tier) -> Vec<Family> {
         });
     };
     mk("D/matrix4x4", 4, 4, matrix_pattern(4, 4, 1), ConnKind::Matrix, None);
+    {
+        // extreme matrix cells (the smallest and the largest 16-bit cost, also in row/column 0)
+        let mut m = matrix_pattern(4, 4, 1);
+        m[4 + 2] = -32768;
+        m[2 * 4 + 1] = 32767;
+        m[1] = -32768;
+        m[3 * 4] = 32767;
+        m[3 * 4 + 3] = -32768;
+        mk("D/matrix4x4-extreme-cells", 4, 4, m, ConnKind::Matrix, None);
+    }
     let b3 = lex_bigram(3, 4, 4);
     let (nr, nl, t) = b3.table();
     mk("D/raw-K3", nr, nl, t, ConnKind::Raw, Some(b3));
